@@ -14,7 +14,7 @@ def run(ctx):
     exe = build.driver("drv_intr", ["drv_intr.c"], variant="default", wraps=WRAPS)
     scripts = []
     # (b) injected EINTR at every k-th invocation (k <= 4 consecutive interruptions) of each blocking system call
-    for k in range(0, 5):
+    for k in range(0, 5 if ctx.quick else 9):
         plan = lambda call: ["plan " + ",".join([call + ":EINTR"] * k)] if k else []
         scripts.append(("inject-sleep-%d" % k, plan("clock_nanosleep") + ["sleep %d" % rng.choice([5, 20, 40])]))
         scripts.append(("inject-sem-%d" % k, plan("sem_open") + ["semnew 2", "units 2"] + plan("sem_wait") + ["acquire"] + plan("sem_wait") + ["acquire", "release", "semfree"]))
@@ -23,15 +23,15 @@ def run(ctx):
         scripts.append(("inject-shm-sem-%d" % k, ["plan " + ",".join(["shm_open:EINTR"] * (k // 2) + ["sem_open:EINTR"] * k)] * (1 if k else 0) + ["shmnew 64", "units 1", "shmlock", "shmunlock", "shmfree"]))
     # ... and at every later invocation: opening objects that exist already takes other branches (exclusive creation fails first, then the
     # plain open; CREATE mode unlinks and creates again; a segment opens its lock semaphore as well)
-    for pos in range(1, 5):
-        for k in (1, 3):
+    for pos in range(1, 5 if ctx.quick else 7):
+        for k in ((1, 3) if ctx.quick else (1, 2, 3, 5)):
             pl = lambda call: "plan " + ",".join([call + ":OK"] * (pos - 1) + [call + ":EINTR"] * k)
             scripts.append(("inject-semopen-%d-%d" % (pos, k), ["semnew 1", pl("sem_open"), "semopen 1", "units 1", "acquire", "release", "semfree"]))
             scripts.append(("inject-semcreate-%d-%d" % (pos, k), ["semnew 1", pl("sem_open"), "semcreate 2", "units 2", "acquire", "release", "semfree"]))
             scripts.append(("inject-shmopen-%d-%d" % (pos, k), ["shmnew 64", pl("shm_open"), "shmopen 64", "units 1", "shmlock", "shmunlock", "shmfree"]))
             scripts.append(("inject-shmopen-sem-%d-%d" % (pos, k), ["shmnew 64", pl("sem_open"), "shmopen 64", "units 1", "shmlock", "shmunlock", "shmfree"]))
     # (a) real signals: timer storms with a handler installed without SA_RESTART
-    for period in ([300, 2000, 20000] if ctx.quick else [200, 500, 1000, 3000, 10000, 20000, 50000]):
+    for period in ([300, 2000, 20000] if ctx.quick else [200, 300, 500, 700, 1000, 1500, 3000, 5000, 10000, 20000, 50000] * 3):
         scripts.append(("storm-sleep-%d" % period, ["storm %d" % period, "sleep 60", "sleep 5", "sleep 130", "storm 0"]))
         scripts.append(("storm-sem-%d" % period, ["storm %d" % period, "semnew 1", "units 1", "acquire", "releaseafter 80", "acquire", "join", "release", "acquire", "semfree", "storm 0"]))
         scripts.append(("storm-shm-%d" % period, ["storm %d" % period, "shmnew 128", "units 1", "shmlock", "shmunlockafter 80", "shmlock", "join", "shmunlock", "shmfree", "storm 0"]))
